@@ -56,5 +56,10 @@ def ecb(task_id):
     ACTIVE.cbs.append(("ecb", task_id))
 
 
+def ecb_raise(task_id):
+    ACTIVE.cbs.append(("ecb_raise", task_id))
+    raise RuntimeError("callback-failed-%s" % task_id)
+
+
 async def accb(task_id):
     ACTIVE.cbs.append(("accb", task_id))
